@@ -114,7 +114,8 @@ theorem syncJobTasks_force (sp : Sys) (jo : JobObj) (kt : Time) (hspec : KillSpe
     (hnf : NoFault sp) (hF : 0 < getForceDeleteTimeout sp.cfg)
     (hforb : (jo.job.template.map (·.forbidTaskForceDeletion)).getD false = false)
     (hT : ∀ t ∈ killTasks sp jo, (isTaskFinished t = true ∧ t.deletionTimestamp = none) ∨
-      (isTaskFinished t = false ∧ ∃ D, t.deletionTimestamp = some D ∧ D + getForceDeleteTimeout sp.cfg ≤ sp.clock)) :
+      (isTaskFinished t = false ∧ ∃ D, t.deletionTimestamp = some D ∧ D + getForceDeleteTimeout sp.cfg ≤ sp.clock))
+    (hfn : TasksFn (killTasks sp jo)) :
     ∃ s6 rj5 M, syncJobTasks sp jo jo.job = (s6, some (recompute sp.clock sp.d rj5 (killTasks sp jo))) ∧
       Frame sp s6 ∧ s6.pods = sp.pods.filter (keepPod M) ∧
       (∀ e ∈ s6.podEvs, e ∈ sp.podEvs ∨ ∃ p0 ∈ sp.pods, e = PEv.delete p0) ∧
@@ -137,7 +138,8 @@ theorem syncJobTasks_force (sp : Sys) (jo : JobObj) (kt : Time) (hspec : KillSpe
   have hrc := recompute_sameSpec sp.clock sp.d jo.job (killTasks sp jo)
   have hk2 : KillSpec (recompute sp.clock sp.d jo.job (killTasks sp jo)) kt := hspec.recompute _ _ _
   -- pending tasks: nothing to delete
-  obtain ⟨s3, hP, hP1, _⟩ := handlePending_quiet s2 jo (recompute sp.clock sp.d jo.job (killTasks sp jo)) (killTasks sp jo) (by
+  obtain ⟨s3, hP, hP1, _⟩ := handlePending_quiet s2 jo (recompute sp.clock sp.d jo.job (killTasks sp jo)) (killTasks sp jo)
+    hfn sp.clock jo.job.status.tasks (recompute_sameSpec sp.clock sp.d jo.job (killTasks sp jo)).2.1 (by
     intro pt _ _ t ht
     rcases hT t ht with ⟨hf, _⟩ | ⟨_, D, hD, _⟩
     · exact Or.inl hf
